@@ -187,8 +187,15 @@ def conclude(prop, tier, seed, merged, t0, write_evidence=True):
             seen_known.setdefault(key, v)
         else:
             seen_new.setdefault(v["monitor"], v)
-    for key, v in seen_known.items():
-        lines.append(f"KNOWN-FINDING: property={prop} {key}: {known[(prop, key)]['what_fails']}")
+    n_known = {}
+    for v in merged["violations"]:
+        k_ = classify(v)
+        if k_ is not None and (prop, k_) in known:
+            n_known[k_] = n_known.get(k_, 0) + 1
+    for (p_, key), f_ in known.items():      # every listed finding of this property is printed, reached in this run or not
+        if p_ == prop:
+            hit = f"witnessed {n_known[key]}x in this run" if key in n_known else "not reached by this run's cases"
+            lines.append(f"KNOWN-FINDING: property={prop} {key}: {f_['what_fails']} [{hit}]")
     for mon, v in seen_new.items():
         path = write_replay(prop, tier, seed, v)
         lines.append(f"VIOLATION property={prop} replay={path}")
